@@ -202,6 +202,15 @@ func (x *Exec) recvValue(sel *ast.SelectorExpr, s *types.Selection, st *State) V
 	return base
 }
 
+func isByteSlice(t types.Type) bool {
+	sl, ok := t.Underlying().(*types.Slice)
+	if !ok {
+		return false
+	}
+	b, ok := sl.Elem().Underlying().(*types.Basic)
+	return ok && (b.Kind() == types.Byte || b.Kind() == types.Uint8)
+}
+
 func (x *Exec) conversion(e *ast.CallExpr, st *State, to types.Type) Value {
 	if len(e.Args) != 1 {
 		return x.opaque(st, e, "conversion arity")
@@ -220,6 +229,14 @@ func (x *Exec) conversion(e *ast.CallExpr, st *State, to types.Type) Value {
 		switch {
 		case isStringType(to) && fromSlice:
 			return Sl{Comp: append([]*Term(nil), x.slComp(st, sl)...), Off: sl.Off, Len: sl.Len, Nil: False, Str: true}
+		case toSlice && isStringType(from) && !isByteSlice(to):
+			// []rune(s): the decoded code points are not modelled -- a fresh
+			// slice of at most len(s) unknown runes
+			x.abstr["[]rune conversion of "+x.src(e.Args[0])+": code points unknown"] = true
+			rs, _ := x.fresh(st, to, "runes").(Sl)
+			st.add(x.ar.le(rs.Len, sl.Len, idxII))
+			st.add(Not(rs.Nil))
+			return rs
 		case toSlice && isStringType(from):
 			reg := x.newRegion("conv")
 			st.regs[reg] = append([]*Term(nil), x.slComp(st, sl)...)
@@ -841,9 +858,10 @@ func (x *Exec) applyContract(e *ast.CallExpr, st *State, fn *types.Func, c *Cont
 	x.applyModifiesSel(st, c, fn, env, args, resN, true)
 	post := &cctx{x: x, st: st, old: pre, env: env, oldEnv: oldEnv, callee: c, resNames: resN}
 	for _, en := range c.Ensures {
-		if strings.Contains(en.Src, "now(") || strings.Contains(en.Src, "calls(") || strings.Contains(en.Src, "lastres(") || strings.Contains(en.Src, "lastarg(") {
-			// speaks about the callee's locals or its own call records:
-			// proved inside the callee, not exported to callers
+		if strings.Contains(en.Src, "now(") || strings.Contains(en.Src, "calls(") || strings.Contains(en.Src, "lastres(") || strings.Contains(en.Src, "lastarg(") || strings.HasPrefix(en.Label, "_") {
+			// speaks about the callee's locals, its own call records or (label
+			// starting with '_') its package's private tables: proved inside
+			// the callee, not exported to callers
 			continue
 		}
 		x.assumeEnsures(post.with(en), en, env, resN)
